@@ -86,6 +86,10 @@ type ChainCfg struct {
 	OracleIntvl  uint64   `json:"oracleInterval"` // Interval of every token feeder
 	SlashWindow  int64    `json:"slashWindow"`    // x/slashing SignedBlocksWindow
 	EpochSeconds int64    `json:"epochSeconds"`   // duration of the "minute" epoch used by dogfood/mint/distribution
+	// oracle stress worlds: ExtraFeeders additional tokens + feeders (not bound to an asset); feeder f (1-based) starts at
+	// OracleStart + ((f-1)/2)*OracleStagger, i.e. pairs of feeders share a window and the pairs are staggered
+	ExtraFeeders  int    `json:"extraFeeders,omitempty"`
+	OracleStagger uint64 `json:"oracleStagger,omitempty"`
 }
 
 type TxDesc struct {
@@ -184,11 +188,17 @@ func chainGenesis(cc ChainCfg) (w *World, appState []byte) {
 	}
 	gc.Epochs = []EpochCfg{{ID: chainEpochID, Duration: time.Duration(es) * time.Second}}
 	gc.OracleMut = func(p *oracletypes.Params, g *oracletypes.GenesisState) {
+		for x := 0; x < cc.ExtraFeeders; x++ {
+			tid := uint64(len(p.Tokens))
+			p.Tokens = append(p.Tokens, &oracletypes.Token{Name: fmt.Sprintf("X%d", x+1), ChainID: 1, ContractAddress: "0x", Decimal: 0, Active: true})
+			p.TokenFeeders = append(p.TokenFeeders, &oracletypes.TokenFeeder{TokenID: tid, RuleID: 1, StartRoundID: 2, StartBaseBlock: cc.OracleStart, Interval: cc.OracleIntvl})
+			g.PricesList = append(g.PricesList, oracletypes.Prices{TokenID: tid, NextRoundID: 2, PriceList: []*oracletypes.PriceTimeRound{{Price: "1", Decimal: 0, RoundID: 1}}})
+		}
 		for i := range p.TokenFeeders {
 			if i == 0 {
 				continue
 			}
-			p.TokenFeeders[i].StartBaseBlock = cc.OracleStart
+			p.TokenFeeders[i].StartBaseBlock = cc.OracleStart + uint64((i-1)/2)*cc.OracleStagger
 			p.TokenFeeders[i].Interval = cc.OracleIntvl
 			p.TokenFeeders[i].StartRoundID = 2 // genesis prices are round 1, next round id 2
 		}
